@@ -198,11 +198,11 @@ def check_C06(o, tier):
     quick = tier == "quick"
     profs = {"gc": gc_profile(o), "gcdir": gcdir_profile(o), "gcpass": gcpass_profile(o), "gcpassdir": gcpassdir_profile(o)}
     _witnesses(o, "C06", profs, C06_MONITORS)
-    _run(o, profs["gc"], "gc-random", {"VERIF_SEED": o.seed + 10, "VERIF_N": 8000 if quick else 150000}, C06_MONITORS)
-    _run(o, profs["gcdir"], "gcdir-random", {"VERIF_SEED": o.seed + 11, "VERIF_N": 2000 if quick else 40000}, C06_MONITORS)
+    _run(o, profs["gc"], "gc-random", {"VERIF_SEED": o.seed + 10, "VERIF_N": 8000 if quick else 100000}, C06_MONITORS)
+    _run(o, profs["gcdir"], "gcdir-random", {"VERIF_SEED": o.seed + 11, "VERIF_N": 2000 if quick else 25000}, C06_MONITORS)
     _run(o, profs["gcdir"], "gcdir-matrix", {"VERIF_SEED": o.seed + 12, "VERIF_N": 1280 if quick else 16000, "VERIF_MATRIX": 1}, C06_MONITORS)
-    _run(o, profs["gcpass"], "gcpass-random", {"VERIF_SEED": o.seed + 13, "VERIF_N": 400 if quick else 4000}, C06_MONITORS)
-    _run(o, profs["gcpassdir"], "gcpassdir-random", {"VERIF_SEED": o.seed + 14, "VERIF_N": 250 if quick else 1200}, C06_MONITORS)
+    _run(o, profs["gcpass"], "gcpass-random", {"VERIF_SEED": o.seed + 13, "VERIF_N": 400 if quick else 3000}, C06_MONITORS)
+    _run(o, profs["gcpassdir"], "gcpassdir-random", {"VERIF_SEED": o.seed + 14, "VERIF_N": 250 if quick else 1000}, C06_MONITORS)
     o.cov["exhaustive"] = False
     for fn in EXTRA_C06:
         fn(o, tier)
